@@ -330,6 +330,22 @@ func genProgram(c *worker.Ctx) *lintProgram {
 	default:
 		p.desc = "no-include"
 	}
+	// A subroutine that includes from its body goes on after the include: with a
+	// local declared before it and statements whose diagnostics depend on the
+	// scope; and a second subroutine does the same.
+	if c.T.Bool(1, 2) {
+		for i, d := range p.decls {
+			if d.kind == "sub" && strings.HasPrefix(d.text, "sub inc_user {\n") && strings.HasSuffix(d.text, "}\n") {
+				body := strings.TrimSuffix(strings.TrimPrefix(d.text, "sub inc_user {\n"), "}\n")
+				full := "  declare local var.l STRING;\n" + body + "  set var.l = \"x\";\n  set req.http.X-A = beresp.http.X-B;\n  set req.http.X-A = var.l;\n"
+				p.decls[i].text = "sub inc_user {\n" + full + "}\n"
+				// the same shape with other names, so that the two subroutines' diagnostics can be told apart
+				add("sub", "sub inc_user2 {\n"+strings.NewReplacer("var.l", "var.m", "beresp.http.X-B", "beresp.http.X-Second", "req.http.X-A", "req.http.X-Other").Replace(full)+"}\n")
+				p.desc += "+continues"
+				break
+			}
+		}
+	}
 	return p
 }
 
